@@ -1302,7 +1302,7 @@ Definition w_none (abegin apw : bool) : world :=
   mkWorld (fun b => Some b) (fun _ => true) (fun u => negb (zlist_eqb u guest)) (fun _ => None)
           (fun _ _ => PFalse) (fun _ _ _ => PFalse) (fun _ => KFalse) (fun _ _ => KFalse)
           (fun _ _ => false) (fun _ _ => false) (fun _ => BBad) (fun _ _ _ => false) 0
-          true TNo false abegin apw false false false (fun _ => true).
+          true TNo false abegin apw false false false (fun _ => true) (fun _ => false).
 
 (* 1. DESIGN 10-3: begin_auth is asynchronous; request for guest, then request for root while
       begin_auth(guest) is pending; its result is applied to self._username = root *)
@@ -1344,14 +1344,14 @@ Qed.
 Definition w2 : world :=
   mkWorld (fun b => Some b) (fun _ => true) (fun _ => true)
           (fun src => match src with
-                      | Some u => if zlist_eqb u alice then Some [mkAe 1 false ko_empty true]
-                                  else if zlist_eqb u bob then Some [mkAe 2 false ko_empty true] else None
+                      | Some u => if zlist_eqb u alice then Some [mkAe 1 false ko_empty FrAbsent]
+                                  else if zlist_eqb u bob then Some [mkAe 2 false ko_empty FrAbsent] else None
                       | None => None end)
           (fun _ _ => PFalse) (fun _ _ _ => PFalse) (fun _ => KFalse) (fun _ _ => KFalse)
           (fun _ _ => false) (fun _ _ => false)
           (fun b => if zlist_eqb b [7] then BKey 1 else BBad)
           (fun k _ sg => (k =? 1) && zlist_eqb sg [9]) 0
-          true TNo false false false false false false (fun _ => true).
+          true TNo false false false false false false (fun _ => true) (fun _ => false).
 Definition evs2 : list ev :=
   [Deliver (req_none alice); Run 0; Complete 0; Run 0;
    Deliver (req_none bob); Deliver (req_pk bob true [7] [9]); Run 0; Run 0; Run 1].
@@ -1368,7 +1368,7 @@ Definition w3 : world :=
           (fun u p => if zlist_eqb u alice && zlist_eqb p [1] then PTrue else PFalse)
           (fun _ _ _ => PFalse) (fun _ => KFalse) (fun _ _ => KFalse)
           (fun _ _ => false) (fun _ _ => false) (fun _ => BBad) (fun _ _ _ => false) 0
-          true TNo false false true false false false (fun _ => true).
+          true TNo false false true false false false (fun _ => true) (fun _ => false).
 Definition evs3 : list ev :=
   [Deliver (req_pw alice [1]); Run 0; Complete 0; Run 0; Run 0; Deliver (req_none root); Complete 1; Run 1].
 
@@ -1384,7 +1384,7 @@ Definition w4 : world :=
           (fun u p => if zlist_eqb u alice && zlist_eqb p [1] then PTrue else PFalse)
           (fun _ _ _ => PFalse) (fun _ => KFalse) (fun _ _ => KFalse)
           (fun _ _ => false) (fun _ _ => false) (fun _ => BBad) (fun _ _ _ => false) 0
-          true TNo false false true false false false (fun _ => true).
+          true TNo false false true false false false (fun _ => true) (fun _ => false).
 Definition evs4 : list ev :=
   [Deliver (req_pw alice [1]); Run 0; Complete 0; Run 0; Run 0; Deliver (req_none guest); Run 1; Complete 2; Run 1;
    Complete 1; Run 0].
@@ -1397,18 +1397,18 @@ Proof. vm_compute. split; reflexivity. Qed.
 (* 5. restrictions: a QUERY (no signature) with a certificate that carries force-command leaves
       _cert_options set; a plain key with its own command= is accepted afterwards; the certificate's
       forced command is the one enforced *)
-Definition c9 : cert := mkCert 4 10 true 0 100 [alice] (mkCo (Some [99]) true false) true.
-Definition k1opts : kopts := mkKo (Some [107]) false false [] [].
+Definition c9 : cert := mkCert 4 10 true 0 100 [alice] (mkCo (Some [99]) true false false) FrAbsent.
+Definition k1opts : kopts := mkKo (Some [107]) false false [] [] false.
 Definition w5 : world :=
   mkWorld (fun b => Some b) (fun _ => true) (fun _ => true)
           (fun src => match src with
-                      | Some u => if zlist_eqb u alice then Some [mkAe 1 false k1opts true; mkAe 10 true ko_empty true] else None
+                      | Some u => if zlist_eqb u alice then Some [mkAe 1 false k1opts FrAbsent; mkAe 10 true ko_empty FrAbsent] else None
                       | None => None end)
           (fun _ _ => PFalse) (fun _ _ _ => PFalse) (fun _ => KFalse) (fun _ _ => KFalse)
           (fun _ _ => false) (fun _ _ => false)
           (fun b => if zlist_eqb b [7] then BKey 1 else if zlist_eqb b [8] then BCert c9 else BBad)
           (fun k _ sg => (k =? 1) && zlist_eqb sg [9]) 50
-          true TNo false false false false false false (fun _ => true).
+          true TNo false false false false false false (fun _ => true) (fun _ => false).
 Definition evs5 : list ev :=
   [Deliver (req_pk alice false [8] []); Run 0; Complete 0; Run 0; Run 0;
    Deliver (req_pk alice true [7] [9]); Run 0; Run 0].
@@ -1545,28 +1545,29 @@ Qed.
    string(session id) ++ the request bytes up to and including the key blob *)
 Lemma pk_start_enc es U head alg kb sg k o :
   blen alg < 4294967296 -> blen kb < 4294967296 -> blen sg < 4294967296 ->
-  decode w kb = BKey k -> ak_validate es k None false = Some o ->
-  verify w k (sstr sid ++ head) sg = true ->
+  decode w kb = BKey k -> ak_validate es k None false = AkSome o ->
+  verify w k (sstr sid ++ head) sg = true -> sk_accepts w k (touch_required_key o) sg = true ->
   pk_start w sid (Some es) U (head ++ sstr sg) ([1] ++ sstr alg ++ sstr kb ++ sstr sg) =
   (CbNone, mkEff (Some o) None RsSuccess).
 Proof.
-  intros H1 H2 H3 Hd Hv Hs. unfold pk_start. cbn [app get_bool Z.eqb negb].
+  intros H1 H2 H3 Hd Hv Hs Hsk. unfold pk_start. cbn [app get_bool Z.eqb negb].
   rewrite get_string_sstr by assumption. rewrite get_string_sstr by assumption.
   replace (sstr sg) with (sstr sg ++ []) at 1 by apply app_nil_r.
   rewrite get_string_sstr by assumption.
-  rewrite firstn_app_exact, Hd, Hv, Hs. reflexivity.
+  rewrite firstn_app_exact, Hd. cbn [ak_lookup]. rewrite Hv, Hs, Hsk. reflexivity.
 Qed.
 
 Theorem accepts_publickey fixed ub alg kb sg U es k o :
   blen ub < 1024 -> blen alg < 4294967296 -> blen kb < 4294967296 -> blen sg < 4294967296 ->
   prep w ub = Some U -> zlist_eqb U [] = false -> needs_auth w U = true -> installs w U = true ->
-  ak_of w (Some U) = Some es -> decode w kb = BKey k -> ak_validate es k None false = Some o ->
+  ak_of w (Some U) = Some es -> decode w kb = BKey k -> ak_validate es k None false = AkSome o ->
+  sk_accepts w k (touch_required_key o) sg = true ->
   let head := 50 :: sstr ub ++ sstr S_CONN ++ sstr S_PUBLICKEY ++ [1] ++ sstr alg ++ sstr kb in
   verify w k (sstr sid ++ head) sg = true ->
   let s := drive w sid fixed 12 (step w sid fixed init (Deliver (head ++ sstr sg))) in
   accepted_as U s /\ key_opts s = o /\ cert_opts s = None.
 Proof.
-  intros Hub Halg Hkb Hsg HU EU Hna Hinst Hak Hdec Hval head Hver. cbv zeta.
+  intros Hub Halg Hkb Hsg HU EU Hna Hinst Hak Hdec Hval Hsk head Hver. cbv zeta.
   set (body := [1] ++ sstr alg ++ sstr kb ++ sstr sg).
   set (p := head ++ sstr sg).
   assert (Hp : p = 50 :: sstr ub ++ sstr S_CONN ++ sstr S_PUBLICKEY ++ body).
@@ -1592,3 +1593,44 @@ Proof.
 Qed.
 
 End Honest.
+
+(* ------------------------------------------------------------------------------------------- *)
+(* Part E: client-address restrictions and the security-key touch table *)
+Section Decisions.
+Variable w : world.
+
+(* an authorized_keys entry is only ever matched when its from= restriction is absent or was checked and
+   matched; one that cannot be checked (no IP peer address) never matches *)
+Lemma ak_validate_from es k cp ca o :
+  ak_validate es k cp ca = AkSome o ->
+  exists e, In e es /\ ae_opts e = o /\ ae_key e = k /\ ae_ca e = ca /\ (ae_from e = FrAbsent \/ ae_from e = FrOk).
+Proof.
+  induction es as [|e r IH]; cbn [ak_validate]; [discriminate|].
+  destruct (Bool.eqb (ae_ca e) ca && (ae_key e =? k)) eqn:E.
+  - apply andb_true_iff in E as [E1 E2]. apply eqb_prop in E1. apply Z.eqb_eq in E2.
+    destruct (ae_from e) eqn:Ef; try discriminate.
+    + destruct (principals_ok (ko_principals (ae_opts e)) cp).
+      * intros H. inversion H. exists e. repeat split; auto. left; reflexivity.
+      * intros H. destruct (IH H) as (e' & Hi & Hr). exists e'. split; [right; exact Hi|exact Hr].
+    + destruct (principals_ok (ko_principals (ae_opts e)) cp).
+      * intros H. inversion H. exists e. repeat split; auto. left; reflexivity.
+      * intros H. destruct (IH H) as (e' & Hi & Hr). exists e'. split; [right; exact Hi|exact Hr].
+    + intros H. destruct (IH H) as (e' & Hi & Hr). exists e'. split; [right; exact Hi|exact Hr].
+  - intros H. destruct (IH H) as (e' & Hi & Hr). exists e'. split; [right; exact Hi|exact Hr].
+Qed.
+
+Lemma touch_table k touch sg :
+  sk_accepts w k touch sg = true -> is_sk w k = true -> touch = true -> sig_up sg = true.
+Proof. unfold sk_accepts. intros H H1 H2. rewrite H1, H2 in H. exact H. Qed.
+
+Lemma touch_waiver_key o : touch_required_key o = false <-> ko_no_touch o = true.
+Proof. unfold touch_required_key. destruct (ko_no_touch o); cbn; split; congruence. Qed.
+
+Lemma touch_waiver_cert o c :
+  touch_required_cert o c = false <-> ko_no_touch o = true /\ co_no_touch c = true.
+Proof.
+  unfold touch_required_cert. destruct (ko_no_touch o), (co_no_touch c); cbn; split;
+    try congruence; try (intros [? ?]; congruence); auto.
+Qed.
+
+End Decisions.
